@@ -9,6 +9,7 @@ CONSTANTS
   AnnModes = {"none", "blk", "bi"}
   WithProxyDel = FALSE
   CfiLayouts = {"none"}
+  Isa = "x64"
   Emit = TRUE
 INVARIANT Inv
 CHECK_DEADLOCK FALSE
